@@ -45,3 +45,40 @@ mod tests {
         assert_eq!(canon(b"\r\r\n"), b"\r\r\n");
     }
 }
+
+
+/// RFC 9580 section 3.7.1 string-to-key functions, written against the digest crates only (reference
+/// model for keys and session keys "made by another implementation").
+/// `kind`: 0 simple, 1 salted, 3 iterated and salted (`coded` = the coded count octet).
+/// `hash`: 2 = SHA-1, 8 = SHA-256, 10 = SHA-512.  Keys longer than the digest use further contexts,
+/// the i-th preloaded with i zero octets.
+pub fn reference_s2k(kind: u8, hash: u8, salt: &[u8; 8], coded: u8, pw: &[u8], n: usize) -> Vec<u8> {
+    use sha2::Digest;
+    let unit: Vec<u8> = if kind == 0 { pw.to_vec() } else { [&salt[..], pw].concat() };
+    let total = if kind == 3 {
+        let count = (16usize + (coded as usize & 15)) << ((coded as usize >> 4) + 6);
+        count.max(unit.len())
+    } else {
+        unit.len()
+    };
+    let mut out = Vec::new();
+    let mut ctx = 0usize;
+    while out.len() < n {
+        let mut data = vec![0u8; ctx];
+        let mut fed = 0;
+        while !unit.is_empty() && fed + unit.len() <= total {
+            data.extend_from_slice(&unit);
+            fed += unit.len();
+        }
+        data.extend_from_slice(&unit[..(total - fed).min(unit.len())]);
+        let d: Vec<u8> = match hash {
+            2 => sha1::Sha1::digest(&data).to_vec(),
+            10 => sha2::Sha512::digest(&data).to_vec(),
+            _ => sha2::Sha256::digest(&data).to_vec(),
+        };
+        out.extend_from_slice(&d);
+        ctx += 1;
+    }
+    out.truncate(n);
+    out
+}
